@@ -80,6 +80,7 @@ def optimize_prec_assignment(model: MPS,
                 assert config_cost == base_cost, "The cost of the layer is not consistent with the original configuration"
 
                 sorted_indexes = torch.argsort(layer.w_mps_quantizer.precision)
+                original_indexes = torch.argsort(sorted_indexes)
                 sorted_precisions = [layer.w_mps_quantizer.precision[i] for i in sorted_indexes]
                 # channel shares are multiples of 1 / n_channels accumulated in floating point:
                 # a share is exhausted when less than half a channel is left
@@ -100,7 +101,10 @@ def optimize_prec_assignment(model: MPS,
                         while w_theta_alpha_array_tmp[i] > half_channel:
                             w_theta_alpha_array_tmp[i] -= (1. / layer.w_mps_quantizer.theta_alpha.shape[1])
                             w_theta_alpha_array_tmp[j] += (1. / layer.w_mps_quantizer.theta_alpha.shape[1])
-                            cost_tmp = _compute_cost(model, layer, w_theta_alpha_array_tmp, cost_fn_map, lname, node)
+                            # _compute_cost pairs the shares with the precisions in their original order
+                            cost_tmp = _compute_cost(model, layer,
+                                                     [w_theta_alpha_array_tmp[k] for k in original_indexes],
+                                                     cost_fn_map, lname, node)
                             if cost_tmp < best_cost:
                                 best_cost = cost_tmp
                                 best_cost_w_theta_alpha_array = copy.deepcopy(w_theta_alpha_array_tmp)
@@ -125,7 +129,10 @@ def optimize_prec_assignment(model: MPS,
                         while w_theta_alpha_array_tmp[i] > half_channel:
                             w_theta_alpha_array_tmp[i] -= (1. / layer.w_mps_quantizer.theta_alpha.shape[1])
                             w_theta_alpha_array_tmp[j] += (1. / layer.w_mps_quantizer.theta_alpha.shape[1])
-                            cost_tmp = _compute_cost(model, layer, w_theta_alpha_array_tmp, cost_fn_map, lname, node)
+                            # _compute_cost pairs the shares with the precisions in their original order
+                            cost_tmp = _compute_cost(model, layer,
+                                                     [w_theta_alpha_array_tmp[k] for k in original_indexes],
+                                                     cost_fn_map, lname, node)
                             if cost_tmp < best_cost:
                                 best_cost = cost_tmp
                                 best_cost_w_theta_alpha_array = copy.deepcopy(w_theta_alpha_array_tmp)
@@ -141,7 +148,6 @@ def optimize_prec_assignment(model: MPS,
                 best_model_cost += best_cost
 
                 # Sort the best configuration according to the original order of the precisions
-                original_indexes = torch.argsort(sorted_indexes)
                 best_theta_alpha_array = torch.tensor([best_cost_w_theta_alpha_array[i] for i in original_indexes])
                 best_theta_alpha_array = torch.mul(best_theta_alpha_array, layer.w_mps_quantizer.theta_alpha.shape[1])
 
